@@ -233,7 +233,7 @@ fn do_fromint(tok: &str) -> Result<String, String> {
     })
 }
 
-fn hash_of<T: std::hash::Hash>(t: &T) -> u64 {
+fn hash_of<T: std::hash::Hash + ?Sized>(t: &T) -> u64 {
     use std::hash::Hasher;
     #[allow(deprecated)]
     let mut h = std::hash::SipHasher::new_with_keys(0x0123456789abcdef, 0xfedcba9876543210);
@@ -518,6 +518,36 @@ fn execute(line: &str) -> Result<String, String> {
         }
         "hashpair" => {
             format!("U {}", hash_of(&(pi128(arg(1)?)?, pi128(arg(2)?)?)))
+        }
+        "hashslice" => {
+            // hashslice <n> D*n D*n : two Decimal sequences as composite keys (Vec, slice, array, tuple)
+            let n = usize::from_str(arg(1)?).map_err(|e| e.to_string())?;
+            if toks.len() != 2 + 2 * n || n == 0 {
+                return Err("hashslice: wrong number of operands".to_string());
+            }
+            let mut v1 = Vec::new();
+            let mut v2 = Vec::new();
+            for i in 0..n {
+                v1.push(pdec(&toks[2 + i])?);
+                v2.push(pdec(&toks[2 + n + i])?);
+            }
+            let mut set = std::collections::HashSet::new();
+            set.insert(v1.clone());
+            let boxed1: Box<[Decimal]> = v1.clone().into_boxed_slice();
+            let boxed2: Box<[Decimal]> = v2.clone().into_boxed_slice();
+            let t1 = (v1[0], v1[n - 1], 7_u8);
+            let t2 = (v2[0], v2[n - 1], 7_u8);
+            format!(
+                "U {} {} {} {} {} {} {}{}",
+                hash_of(&v1),
+                hash_of(&v2),
+                hash_of(&boxed1[..]),
+                hash_of(&boxed2[..]),
+                hash_of(&t1),
+                hash_of(&t2),
+                b(v1 == v2),
+                b(set.contains(&v2))
+            )
         }
         "hashset" => {
             // hashset <n_insert> D... : insert the first n, then probe the rest
